@@ -441,6 +441,8 @@ class Interp:
         if m is not None:
             self.st.used_models.add(_qn(f))
             return m(self, args, kwargs)
+        if f is tuple.__new__ or f is object.__new__ or f is list.__new__ or f is dict.__new__:
+            return self._native(f, [list(a) if isinstance(a, _GenIter) else a for a in args], kwargs)
         # native bound method of a container: data-structure operations do not inspect elements
         selfobj = getattr(f, '__self__', None)
         name = getattr(f, '__name__', None)
